@@ -43,7 +43,7 @@ func c10HangBound(baseline time.Duration) time.Duration {
 // exhaustive=false and what was completed.
 func c10Budget(thorough bool) time.Duration {
 	if thorough {
-		return 9 * time.Minute
+		return 8*time.Minute + 30*time.Second
 	}
 	return 4 * time.Minute
 }
@@ -501,7 +501,7 @@ func c10OnDisk(run *common.Run, root string, thorough bool, deadline time.Time) 
 		if out == nil {
 			common.Fatalf("unannotated baseline of batch %d did not finish in %s", c.b, c10HangMinimum)
 		}
-		if crash := out.Crashed(); crash != "" {
+		if crash := c10CrashText(out, c.d); crash != "" {
 			c10ReportCrash(run, fmt.Sprintf("module-batch %s..", batches[c.b][0].Path), crash, out.Stderr, map[string]any{"pattern": "none (baseline)", "cmd": out.Cmd})
 		} else if out.Exit != 0 {
 			common.Fatalf("%s exited %d on unannotated packages:\n%s", out.Cmd, out.Exit, c09Tail(out.Stderr))
@@ -597,14 +597,14 @@ func c10OnDisk(run *common.Run, root string, thorough bool, deadline time.Time) 
 		for _, p := range b {
 			in[p.Path] = true
 		}
-		if crash := out.Crashed(); crash != "" {
+		if crash := c10CrashText(out, c.d); crash != "" {
 			// attribute to packages: run every package of the batch on its own
 			found := false
 			for _, p := range b {
 				o1, _ := c10RunWithBound(drv.Req{Driver: c.d, Dir: c.dir, Flags: c.cfg.Flags, Env: c10DriverEnv, Patterns: []string{p.Path}}, bound)
-				if o1 != nil && o1.Crashed() != "" {
+				if o1 != nil && c10CrashText(o1, c.d) != "" {
 					found = true
-					c10ReportCrash(run, p.Path, o1.Crashed(), c10StackOf(o1), map[string]any{"pattern": c.pat.Name, "config": c.cfg.Name, "driver": c.d.String(), "cmd": o1.Cmd})
+					c10ReportCrash(run, p.Path, c10CrashText(o1, c.d), c10StackOf(o1), map[string]any{"pattern": c.pat.Name, "config": c.cfg.Name, "driver": c.d.String(), "cmd": o1.Cmd})
 				}
 			}
 			if !found {
@@ -635,6 +635,47 @@ func c10OnDisk(run *common.Run, root string, thorough bool, deadline time.Time) 
 	if completed < len(cells) {
 		run.NotExhaustive(fmt.Sprintf("time budget: %d of %d on-disk driver invocations completed", completed, len(cells)))
 	}
+}
+
+// c10CrashText looks for evidence of an abnormal end outside the JSON diagnostics: diagnostic
+// messages quote source lines, and real-world source lines contain "panic:" and "internal error".
+// The standalone driver prints JSON on stdout, so only its stderr is searched; the vet driver
+// prints pretty-printed JSON objects on stderr ("{" ... "}" at column 0) between "# package"
+// lines, which are removed first. Analyzer errors reported inside the JSON tree count as well.
+func c10CrashText(o *drv.Out, d drv.Driver) string {
+	text := o.Stderr
+	if d == drv.Vet {
+		var keep []string
+		inJSON := false
+		for _, l := range strings.Split(text, "\n") {
+			switch {
+			case inJSON:
+				if l == "}" {
+					inJSON = false
+				}
+			case l == "{}":
+			case strings.HasPrefix(l, "{"):
+				inJSON = true
+			case strings.HasPrefix(l, "# "):
+			default:
+				keep = append(keep, l)
+			}
+		}
+		text = strings.Join(keep, "\n")
+	}
+	for _, needle := range []string{"panic:", "internal error", "fatal error:", "goroutine 1 ["} {
+		if i := strings.Index(text, needle); i >= 0 {
+			end := i + 300
+			if end > len(text) {
+				end = len(text)
+			}
+			return text[i:end]
+		}
+	}
+	if len(o.Errors) > 0 {
+		return "analyzer error: " + strings.Join(o.Errors, "; ")
+	}
+	return ""
 }
 
 func c10StackOf(o *drv.Out) string {
